@@ -42,19 +42,33 @@ var c17Families = []c17Family{
 func TestVerifC17Globals(t *testing.T) {
 	part := "global-combinations"
 	R := rep.New("C17", part)
-	run := func(f c17Family, mask int) (string, string) {
+	// variant 0: as is. variant 1: the receiver's list holds one null item ("- " with nothing after it) instead of the
+	// configured one. variant 2+i: the i-th selected global key is written with an EMPTY value ("slack_app_url:").
+	run := func(f c17Family, mask, variant int) (string, string) {
 		var keys []string
 		y := "global:\n"
+		sel := 0
 		for i, k := range f.keys {
 			if mask&(1<<i) != 0 {
+				if variant == 2+sel {
+					k = strings.SplitN(k, ":", 2)[0] + ":"
+				}
+				sel++
 				keys = append(keys, k)
 				y += "  " + k + "\n"
 			}
 		}
+		if variant >= 2+sel {
+			return "", "" // no such key in this subset
+		}
 		if len(keys) == 0 {
 			y = ""
 		}
-		y += "route:\n  receiver: r\nreceivers:\n- name: r\n" + f.receiver
+		recv := f.receiver
+		if variant == 1 {
+			recv = strings.SplitN(f.receiver, "\n", 2)[0] + "\n  -\n"
+		}
+		y += "route:\n  receiver: r\nreceivers:\n- name: r\n" + recv
 		r := safeLoad(y)
 		if r.pan != nil {
 			return "load-panics", fmt.Sprintf("%v on a %s receiver with global settings %v\n%s", r.pan, f.name, keys, y)
@@ -86,7 +100,11 @@ func TestVerifC17Globals(t *testing.T) {
 			return
 		}
 		c := rep.Ints(rp["case"])
-		v, d := run(c17Families[c[0]], c[1])
+		variant := 0
+		if len(c) > 2 {
+			variant = c[2]
+		}
+		v, d := run(c17Families[c[0]], c[1], variant)
 		fmt.Printf("REPLAY violation=%q %s\n", v, d)
 		R.Executions = 1
 		if v != "" {
@@ -97,14 +115,16 @@ func TestVerifC17Globals(t *testing.T) {
 	}
 	for fi, f := range c17Families {
 		for mask := 0; mask < 1<<len(f.keys); mask++ {
-			R.Executions++
-			R.Transitions++
-			if v, d := run(f, mask); v != "" && R.NViolations < 5 {
-				R.Violate(v, d, map[string]any{"part": part, "case": []int{fi, mask}})
+			for variant := 0; variant < 2+len(f.keys); variant++ {
+				R.Executions++
+				R.Transitions++
+				if v, d := run(f, mask, variant); v != "" && R.NViolations < 8 {
+					R.Violate(v, d, map[string]any{"part": part, "case": []int{fi, mask, variant}})
+				}
 			}
 		}
 	}
 	R.Exhaustive = true
-	R.Bound = fmt.Sprintf("for each of %d integration kinds: every subset of the global settings related to it (inline secrets, *_file twins, URLs, SMTP / HTTP defaults), with one receiver of that kind that sets nothing itself", len(c17Families))
+	R.Bound = fmt.Sprintf("for each of %d integration kinds: every subset of the global settings related to it (inline secrets, *_file twins, URLs, SMTP / HTTP defaults), with one receiver of that kind that sets nothing itself; each also with a null item in the receiver's list and with each selected key given an empty value; every accepted configuration also goes through the path resolution LoadFile applies", len(c17Families))
 	R.Write()
 }
